@@ -8,6 +8,7 @@ import (
 	"context"
 	"errors"
 	"fmt"
+	"io"
 	"runtime"
 	"sync"
 	"sync/atomic"
@@ -27,10 +28,10 @@ type c11Case struct {
 	Cause string    `json:"cause"` // cancel | deadline | localClose | peerClose | malformed
 }
 
-func c11IsCtxCause(c string) bool { return c == "cancel" || c == "deadline" }
+func c11IsCtxCause(c string) bool { return c == "cancel" || c == "deadline" || c == "cancelCause" }
 
 var c11Kinds = []string{"connect", "pub1", "pub2", "sub", "unsub", "ping", "disconnect"}
-var c11Causes = []string{"cancel", "deadline", "localClose", "peerClose", "malformed"}
+var c11Causes = []string{"cancel", "deadline", "cancelCause", "localClose", "peerClose", "malformed"}
 
 // cause "disconnect": no context ends and no link fails; the application calls Disconnect (with a context of its
 // own) while the other calls wait. Disconnect does not wait for the peer, so it returns, the link is closed by it,
@@ -172,6 +173,13 @@ func c11Run(tb rapid.TB, c c11Case) {
 		}
 	}
 	var dlCancel context.CancelFunc
+	if c.Cause == "cancelCause" {
+		// cancelled with an explicit cause (io.EOF, of all things): the context's error is still context.Canceled
+		cctx, cc := context.WithCancelCause(context.Background())
+		ctx = cctx
+		applyCause = func() { cc(io.EOF) }
+		defer cc(nil)
+	}
 	if c.Cause == "deadline" {
 		// a deadline context whose deadline the harness controls: it expires when applyCause runs
 		ctx, dlCancel = c11DeadlineContext()
